@@ -717,6 +717,7 @@ def run(ctx):
     rule_explicit_ranges(ctx)
     import c13
 
+    ctx.include("C04.18", "the statements a declaration with initialisers expands to are located at the declaration statement (evaluation of the declaration shortcuts, shared with C13.1)", lambda c: c13.eval_declaration_split(c, "C13.1"), only=["ast_shortcuts::split_declaration/every-statement-located"])
     ctx.include("C04.12", "the statements synthesised for `x op= e`, `x++` and `x--` are located at the whole statement: the expansion is compared with the written-out form including the meta it is given (shared with C13.1)", c13.rule_expansions)
     import c17
 
